@@ -1,18 +1,23 @@
 """C14 — coordinate systems and rigid-body geometry are mutually consistent (DESIGN.md 6/C14).
 
-Tie: numeric correspondence (|impl - model| <= 1e-9 * scale, angles compared modulo 360 degrees)
-between the Lean model lean/PyYetiVerif/Model/Coord.lean (run at Float through Drivers/C14.lean,
-doubles transported as bit patterns) and pyyeti.nastran.n2p:
+Tie: correspondence between the Lean models lean/PyYetiVerif/Model/{Coord,CoordRbe3,CoordChain}.lean (run at Float
+through Drivers/C14.lean, doubles transported as bit patterns) and pyyeti.nastran.n2p.
+Numeric streams (|impl - model| <= 1e-9 * scale, angles compared modulo 360 degrees):
   cs    build_coords / mkusetcoordinfo / mkcordcardinfo     (A-B-C construction, chaining)
   loc   addgrid (+ make_uset for scalar points), uset rows   (forward maps)
-  get   getcoordinates by grid id and by xyz                 (inverse maps, |sin|>|cos| branch)
+  get   getcoordinates by grid id and by xyz                 (inverse maps, |sin|>|cos| branch; azimuths exactly
+                                                              on 0, +-90, 180, 270, +-45, +-135 in rotated frames)
   rb    rbgeom_uset (ref = grid id or xyz)                   (local frames, zero rows)
   rbg   rbgeom (ref = row index or xyz)
   mv    rbmove          rbc   rbcoords
-  rbe3  formrbe3 (no UM_List; UM_List is covered by the oracle only)
+  rbe3  formrbe3: weights, component selections (also non-ascending digits), Ind_List not in uset order, and the
+        UM_List kinds indep / dep / mixed / first-ind / first-dep / wrong size (shape and ValueError compared exactly)
   rep   replace_basic_cs (both call forms)
-on random worlds: chains of up to 5 CORD2R/C/S systems of all type mixes, grids entered in any system
-with any output system, scalar points and q-set grids mixed in.
+Exact streams (ids, levels, error kind and payload, key order; numbers of the resolved systems to 1e-9):
+  bc    build_coords on shuffled cards: valid trees, equal / unequal duplicates, missing / self / circular references
+  mk    mkusetcoordinfo(card, None, coordref) card by card with one dictionary (known id, new id, ValueError)
+on random worlds: chains of up to 5 CORD2R/C/S systems of all type mixes, grids entered in any system with any
+output system, scalar points and q-set grids mixed in.
 
 The oracle (`search`) restates the property on the public API only, with its own numpy geometry.
 """
@@ -36,50 +41,75 @@ THEOREMS = [
         "cyl_roundtrip cyl_roundtrip_inv sph_roundtrip "
         "chain_consistent_point chain_consistent_rect chain_consistent_cyl chain_compose "
         "rb_is_rigid local_frame_orthonormal rb_matches_geometry rbmove_consistent rbmove_rows "
-        "rbcoords_recovers replace_basic_rigid"
+        "rbcoords_recovers replace_basic_rigid "
+        "sph_roundtrip_inv chain_consistent_sph sph_branch_safe sph_branch_abs_needed rbcoords_recovers_all "
+        "rbe3_normal_invertible rbe3_alg_reproduces rbe3_reproduces_rb rbe3_rigid_motion rbe3_rows_are_rbgeom_uset "
+        "rbe3_fullrank_three_grids rbe3_reproduces_rb_three_grids "
+        "rbe3_um_indep rbe3_um_mixed rbe3_um_dep um_plan_indep_partial um_plan_dep_partial "
+        "um_plan_dep_counterexample um_plan_indep_counterexample "
+        "chain_order_irrelevant chain_circular_refused chain_dup_unequal_refused chain_resolved"
     ).split()
 ]
 TRUSTED = [
     "correspondence harness harness/props/c14.py (numeric comparison 1e-9*scale; angles modulo 360 deg)",
     "libm sin/cos/atan2/sqrt, numpy matmul/cross/norm, scipy.linalg.lstsq/solve: modelled by Lean Float "
-    "operations and a Gaussian elimination; agreement to 1e-9 is measured, not proved",
-    "ℝ instance of TransOps: atan2 y x := Complex.arg (x + i y); theorems are over ℝ, not over doubles",
-    "uset set/DOF bookkeeping (mksetpv, mkdofpv, mat_intersect, expanddof) is property C18's subject; here "
-    "it is exercised through the API only",
+    "operations and a Gaussian elimination (`gaussTab`); agreement to 1e-9 is measured, not proved; the theorems "
+    "about formrbe3 hold for every exact solver (`ExactSolve`)",
+    "ℝ instance of TransOps: atan2 y x := Complex.arg (x + i y); theorems are over ℝ (the formrbe3 algebra over any "
+    "field), not over doubles",
+    "uset set/DOF bookkeeping (mksetpv, mkdofpv, expanddof) is property C18's subject; here DOF are identified by "
+    "their uset row (computed by the harness) and mat_intersect / index2bool / flippv are modelled by `umPlan`",
 ]
 RULE = (
     "a case is one (world, operation): world = chain of 0..5 CORD2R/C/S systems (random reference structure, "
     "depth <= 5, all type mixes) + 2..8 uset entries (grids entered in any system with any output system, "
-    "scalar points, q-set grids, per-DOF set strings), operation in cs/loc/get/rb/mv/rbc/rbe3/rep; non-trivial = "
+    "scalar points, q-set grids, per-DOF set strings), operation in cs/loc/get/rb/mv/rbc/rbe3/rep; or one set of "
+    "cards for bc/mk (1..7 cards + duplicates / missing / circular references, shuffled); non-trivial = "
     "the world has at least one cylindrical or spherical system or a chain of depth >= 2 involved in the "
-    "operation; distinct by the world's numbers and the operation's parameters"
+    "operation (every rbe3, bc, mk case counts); distinct by the world's numbers and the operation's parameters"
 )
 ASSUMPTIONS = [
     "grids are kept away from the polar singularities (rho >= 0.1 in every cylindrical/spherical system they are "
     "expressed in), A-B-C points are non-collinear (sin of the angle > 0.2)",
-    "formrbe3 cases have cond(rb' W rb) <= 1e6; worse-conditioned ones are skipped and counted",
+    "formrbe3 cases have cond(rb' W rb) <= 1e6 (<= 1e4 with a UM_List, and the block formrbe3 inverts for the "
+    "UM_List has cond <= 1e2); worse-conditioned ones are skipped and counted",
+    "coordinate-system ids are positive (a card with id 0 would redefine the basic system; the real loop need not "
+    "terminate then and the model answers `diverges`)",
 ]
 PARTIAL = (
-    "partial: rbe3_reproduces_rb (formrbe3 maps rigid motion of the independent grids to the dependent grid) "
-    "and formrbe3's UM_List variants are checked by the oracle and the correspondence only, not proved; "
-    "sph_roundtrip is proved in the direction fwd(inv q) = q only; all theorems are over the reals "
-    "(round-off is measured by the correspondence, never proved)"
+    "partial: um_plan_indep_partial / um_plan_dep_partial — formrbe3 picks its UM_List branch by the truth value of "
+    "index arrays, so an m-set whose only dependent DOF is the first one raises and an m-set whose only independent "
+    "DOF is the first one returns too few rows (findings rbe3-um-mset-holds-only-the-first-dependent-dof / "
+    "-independent-dof; counterexamples proved, the model follows the code); that umPlan's index lists are a "
+    "partition (IsPartition) and that a well-founded set of cards always resolves (build_coords succeeds) are tied by "
+    "the correspondence only; the rbe3 theorems assume an exact linear solver; all geometry theorems are over the "
+    "reals (round-off is measured by the correspondence, never proved)"
 )
 MANIFEST = {
-    "level_text": "Proof (Lean 4, Mathlib, standard axioms) about one polymorphic model of n2p's coordinate and "
+    "level_text": "Proof (Lean 4, Mathlib, standard axioms) about polymorphic models of n2p's coordinate and "
     "rigid-body geometry: the A-B-C construction gives an orthonormal right-handed triad for non-collinear points "
-    "and every resolved chain has an orthogonal transform; cylindrical/spherical forward∘inverse maps are the "
-    "identity off the polar axis (and inverse∘forward for cylindrical in the principal range); a point entered in a "
-    "system and queried back is itself; rbgeom_uset rows are R_gridᵀ·[I, −(p−ref)×; 0, I] with R_grid the unit "
-    "tangent frame of the coordinate curves at the grid (rectangular, cylindrical, spherical); rbmove is "
-    "reference-point consistent; rbcoords recovers p − ref; replace_basic_cs preserves distances and relative "
-    "orientations. The same definitions run at Float and are compared numerically (1e-9) with addgrid, "
-    "getcoordinates, build_coords, mkcordcardinfo, rbgeom_uset, rbgeom, rbmove, rbcoords, formrbe3 and "
-    "replace_basic_cs on random chains of all type mixes with scalar points and q-set grids.",
+    "and every resolved chain has an orthogonal transform; cylindrical and spherical forward∘inverse maps are the "
+    "identity off the polar axis and inverse∘forward in the principal range (the |sin φ| > |cos φ| choice always "
+    "divides by a number of magnitude ≥ 1/√2; without the absolute values it divides by 0 at φ = 180°); a point "
+    "entered in a system and queried back is itself; rbgeom_uset rows are R_gridᵀ·[I, −(p−ref)×; 0, I] with R_grid "
+    "the unit tangent frame of the coordinate curves at the grid; rbmove is reference-point consistent; rbcoords "
+    "recovers p − ref in every branch; replace_basic_cs preserves distances and relative orientations; formrbe3's "
+    "matrix times the rigid-body rows of the independent DOF (relative to any point) is the rigid-body rows of the "
+    "dependent DOF for positive weights and full column rank (which three non-collinear grids with their "
+    "translations guarantee), for every exact solver, and the three UM_List re-partitions keep that; build_coords "
+    "does not depend on the order of the cards, refuses reference cycles / undefined references / unequal "
+    "duplicates, and every entry of its dictionary is the A-B-C construction of its card relative to the entry of "
+    "the card's reference. The same definitions run at Float and are compared (numbers to 1e-9, ids / levels / "
+    "errors / shapes exactly) with addgrid, getcoordinates, build_coords, mkusetcoordinfo, mkcordcardinfo, "
+    "rbgeom_uset, rbgeom, rbmove, rbcoords, formrbe3 (all UM_List kinds) and replace_basic_cs on random chains of "
+    "all type mixes with scalar points and q-set grids, including azimuths exactly on the branch boundaries.",
     "level_note": "Trusted: Lean kernel; propext, Classical.choice, Quot.sound; the Python harness; libm/LAPACK "
-    "agreement with the Float model is measured. formrbe3's least-squares identity and UM_List are oracle-checked "
-    "only. Polar singularities are excluded by the property.",
-    "technique": "Lean 4 proof over ℝ of a polymorphic executable model + numeric differential correspondence at Float",
+    "agreement with the Float model is measured. formrbe3's choice of UM_List branch is proved only away from the "
+    "two index-truth-test inputs (reported as findings); that build_coords succeeds on every well-founded card set "
+    "and that umPlan's lists partition the DOF are correspondence-only. Polar singularities are excluded by the "
+    "property.",
+    "technique": "Lean 4 proof over ℝ / any field of polymorphic executable models + numeric and exact differential "
+    "correspondence at Float",
 }
 
 TOL = 1e-9
@@ -295,7 +325,10 @@ def _build(w, style, rng=None):
             rng.shuffle(rows)
             if rows and rng.random() < 0.3:
                 rows.append(rows[0].copy())  # equal duplicates are quietly ignored
-        coordref = n2p.build_coords(np.array(rows)) if rows else {}
+        try:
+            coordref = _guard(lambda: n2p.build_coords(np.array(rows))) if rows else {}
+        except _Hang:
+            raise RuntimeError("build_coords was still running after the time limit")
     else:
         coordref = {}
         for c in cards:
@@ -398,7 +431,12 @@ def _plan_world(ctx, rng, w, items):
 
     def uset_cr():
         if "u" not in built:
-            built["u"] = _build(w, style, rng)
+            try:
+                built["u"] = _build(w, style, rng)
+            except Exception as e:  # every operation on this world reports the same refusal
+                built["u"] = e
+        if isinstance(built["u"], Exception):
+            raise built["u"]
         return built["u"]
 
     inp0 = {"world": w, "style": style}
@@ -486,6 +524,16 @@ def _plan_world(ctx, rng, w, items):
                 g = kT.T @ (p - ko)
                 phi = math.atan2(g[1], g[0])
                 ctx.count("get:sph-theta-via-sin" if abs(math.sin(phi)) > abs(math.cos(phi)) else "get:sph-theta-via-cos")
+                if math.hypot(g[0], g[1]) >= 0.1:
+                    deg = phi * 180 / math.pi
+                    if abs(abs(deg) - 180) < 1e-6:
+                        ctx.count("get:sph-azimuth-180")
+                    elif abs(deg + 90) < 1e-6:
+                        ctx.count("get:sph-azimuth-minus-90")
+                    elif abs(deg) < 1e-6 or abs(deg - 90) < 1e-6:
+                        ctx.count("get:sph-azimuth-0-or-90")
+                    elif abs(abs(deg) % 90 - 45) < 1e-6:
+                        ctx.count("get:sph-azimuth-diagonal")
         items.append(("get", dict(inp0, op="get", k=k, byxyz=byxyz, form=form), "get %s %d" % (W, k),
                       impl_get, (G, 3), ang, br, skip_get))
 
@@ -596,26 +644,38 @@ def _plan_world(ctx, rng, w, items):
                   "rep:form4x3" if form4 else "rep:id+3x3", None))
 
 
+def _dof_key(w, i, d):
+    """uset row of component d (1..6) of entry i"""
+    row = 0
+    for e in w["entries"][:i]:
+        row += 1 if e["kind"] == "sp" else 6
+    return row + d - 1
+
+
+def _nuset(w):
+    return sum(1 if e["kind"] == "sp" else 6 for e in w["entries"])
+
+
 def _rbe3_case(rng, w):
-    """choose dependent / independent DOF for a plain world; -> dict or None"""
+    """choose dependent / independent DOF for a plain world (Ind_List order is not the uset order); -> dict"""
     ents = w["entries"]
     idx = list(range(len(ents)))
     dep = rng.choice(idx)
     others = [i for i in idx if i != dep]
     rng.shuffle(others)
     nind = rng.randint(3, len(others))
-    ind = sorted(others[:nind])
+    ind = others[:nind]
     groups = []  # (dofint, weight or None, [entry idx])
     k = rng.randint(1, 2)
     split = [ind] if k == 1 else [ind[: len(ind) // 2 + 1], ind[len(ind) // 2 + 1 :]]
-    choices = [123, 123, 123456, 123456, 12346, 1235, 123]
+    choices = [123, 123, 123456, 123456, 12346, 1235, 123, 312, 654321]
     for gi, grp in enumerate(split):
         if not grp:
             continue
         d = 123 if gi == 0 and rng.random() < 0.6 else rng.choice(choices)
         wt = None if rng.random() < 0.4 else round(rng.uniform(0.2, 5.0), 3)
         groups.append((d, wt, grp))
-    dd = rng.choice([123456, 123456, 123, 456, 1246, 35, 2])
+    dd = rng.choice([123456, 123456, 123456, 123, 456, 1246, 35, 2, 53, 6421])
     return {"dep": dep, "ddof": dd, "groups": groups}
 
 
@@ -623,64 +683,471 @@ def _digits(n):
     return [int(c) for c in str(n)]
 
 
-def _rbe3_canon(w, case):
-    """-> (sorted grid-entry indices for Lc, [(pos in that list, dof, weight)] in uset order)"""
+def _rbe3_ref(w, case):
+    """Independent numpy statement of formrbe3 (no UM_List) from the world's geometry: used to keep the cases
+    inside the conditioning domain and by the oracle; never the Lean model."""
     ents = w["entries"]
-    per = {}
+    infos = _ref_resolve(w["cs"])
+    locs = [infos[e["cin"]][1] + infos[e["cin"]][2] @ _to_rect(infos[e["cin"]][0], e["xyz"]) for e in ents]
+    pdep = locs[case["dep"]]
+    indlist = []  # Ind_List order
     for d, wt, grp in case["groups"]:
         for i in grp:
-            per[i] = (_digits(d), 1.0 if wt is None else wt)
-    part = sorted(set(per) | {case["dep"]}, key=lambda i: ents[i]["id"])
-    ind = []
-    for i in sorted(per):  # uset order = entry order
-        for d in per[i][0]:
-            ind.append((part.index(i), d, per[i][1]))
-    return part, ind
+            for c in _digits(d):
+                indlist.append((i, c, 1.0 if wt is None else float(wt)))
+    part = sorted({i for i, _, _ in indlist} | {case["dep"]})
+    idof = sorted(indlist, key=lambda t: _dof_key(w, t[0], t[1]))
+    Lc = sum(np.linalg.norm(locs[i] - pdep) for i in part) / (len(part) - 1)
+
+    def block(i, ref):
+        ct, co, cT = infos[ents[i]["cout"]]
+        R = _local_frame(ct, co, cT, locs[i])
+        return np.kron(np.eye(2), R.T) @ _rigid6(locs[i] - ref)
+
+    rb = np.array([block(i, pdep)[c - 1] for i, c, _ in idof])
+    wts = np.array([wt * Lc * Lc if (c > 3 and Lc > 1e-12) else wt for _, c, wt in idof])
+    A = (rb.T * wts) @ rb
+    cond = np.linalg.cond(A)
+    ddof = [(case["dep"], c) for c in _digits(case["ddof"])]
+    R0 = None
+    if np.isfinite(cond) and cond <= 1e8:
+        R0 = block(case["dep"], pdep)[[c - 1 for _, c in ddof]] @ np.linalg.solve(A, rb.T * wts)
+    return {"part": part, "indlist": indlist, "idof": [(i, c) for i, c, _ in idof], "ddof": ddof,
+            "cond": cond, "R0": R0, "locs": locs, "block": block}
 
 
-def _plan_rbe3(ctx, rng, w, items):
+UM_KINDS = ("indep", "dep", "mixed", "first-ind", "first-dep", "size")
+
+
+def _um_list(rng, dofs):
+    """[(entry, comp)] -> [(entry, dofint)] in a random UM_List order (digits of one grid in random order)"""
+    per = {}
+    for i, c in dofs:
+        per.setdefault(i, []).append(c)
+    out = []
+    for i in per:
+        ds = per[i][:]
+        rng.shuffle(ds)
+        out.append((i, int("".join(map(str, ds)))))
+    rng.shuffle(out)
+    return out
+
+
+def _um_mdof(um):
+    return [(i, c) for i, d in um for c in _digits(d)]
+
+
+def _um_split(ref, mdof):
+    """-> (dm, dn, im, inn): positions in ddof / idof of the m-set and the rest"""
+    ms = set(mdof)
+    dm = [k for k, t in enumerate(ref["ddof"]) if t in ms]
+    dn = [k for k, t in enumerate(ref["ddof"]) if t not in ms]
+    im = [k for k, t in enumerate(ref["idof"]) if t in ms]
+    inn = [k for k, t in enumerate(ref["idof"]) if t not in ms]
+    return dm, dn, im, inn
+
+
+def _um_block_cond(ref, mdof):
+    """condition number of the matrix formrbe3 has to invert for this m-set (1.0 if none)"""
+    dm, dn, im, inn = _um_split(ref, mdof)
+    if not im:
+        return 1.0
+    C = ref["R0"][np.ix_(dn, im)]
+    if C.shape[0] != C.shape[1]:
+        return float("inf")
+    return float(np.linalg.cond(C))
+
+
+def _add_um(rng, w, case, ref, kind, condmax=1e2):
+    """attach a UM_List of the given kind to `case`; False if none with a well-conditioned block was found"""
+    nd = len(ref["ddof"])
+    ni = len(ref["idof"])
+    for _ in range(40):
+        if kind == "indep":
+            if ni < nd:
+                return False
+            dofs = rng.sample(ref["idof"], nd)
+        elif kind == "dep":
+            if nd < 2:
+                return False  # a single dependent DOF as the m-set is the "first-dep" input
+            dofs = list(ref["ddof"])
+        elif kind == "mixed":
+            if nd < 2 or ni < 2:
+                return False
+            r = rng.randint(1, nd - 1)
+            drows = rng.sample(range(nd), r)
+            icols = rng.sample(range(ni), nd - r) if ni >= nd - r else None
+            if icols is None or drows == [0] or icols == [0]:
+                continue  # the two index-truth-test inputs are generated on purpose below, not by accident
+            dofs = [ref["ddof"][k] for k in drows] + [ref["idof"][k] for k in icols]
+        elif kind == "first-ind":
+            if nd < 2:
+                return False
+            dofs = [ref["idof"][0]] + rng.sample(ref["ddof"], nd - 1)
+        elif kind == "first-dep":
+            if ni < nd - 1:
+                return False
+            dofs = [ref["ddof"][0]] + rng.sample(ref["idof"], nd - 1)
+        else:  # wrong size
+            pool = ref["idof"] + ref["ddof"]
+            n = nd + rng.choice([-1, 1])
+            if n < 1 or n > len(pool):
+                continue
+            dofs = rng.sample(pool, n)
+        if kind != "size" and not _um_block_cond(ref, dofs) <= condmax:
+            continue
+        case["um"] = {"kind": kind, "list": _um_list(rng, dofs)}
+        return True
+    return False
+
+
+def _plan_rbe3(ctx, rng, w, items, kind=None):
     from pyyeti.nastran import n2p
 
     case = _rbe3_case(rng, w)
     ents = w["entries"]
-    infos = _ref_resolve(w["cs"])
-    part, ind = _rbe3_canon(w, case)
-    # conditioning from the independent geometry
-    locs = [infos[e["cin"]][1] + infos[e["cin"]][2] @ _to_rect(infos[e["cin"]][0], e["xyz"]) for e in ents]
-    pdep = locs[case["dep"]]
-    rows, wts = [], []
-    Lc = sum(np.linalg.norm(locs[i] - pdep) for i in part) / (len(part) - 1)
-    for pos, d, wt in ind:
-        i = part[pos]
-        ct, co, cT = infos[ents[i]["cout"]]
-        R = _local_frame(ct, co, cT, locs[i])
-        blk = np.kron(np.eye(2), R.T) @ _rigid6(locs[i] - pdep)
-        rows.append(blk[d - 1])
-        wts.append(wt * Lc * Lc if d > 3 else wt)
-    rb = np.array(rows)
-    Amat = (rb.T * np.array(wts)) @ rb
-    cond = np.linalg.cond(Amat)
-    if not cond <= 1e6:
-        ctx.skip("rbe3: cond(rb'Wrb) > 1e6")
+    ref = _rbe3_ref(w, case)
+    condmax = 1e6 if kind is None else 1e4
+    if not ref["cond"] <= condmax:
+        ctx.skip("rbe3: cond(rb'Wrb) > %g" % condmax)
         return
+    if kind is not None and not _add_um(rng, w, case, ref, kind):
+        ctx.skip("rbe3: no well-conditioned UM_List of kind %s" % kind)
+        return
+    part, indlist = ref["part"], ref["indlist"]
     ddig = _digits(case["ddof"])
     Ind_List = []
     for d, wt, grp in case["groups"]:
         Ind_List += [d if wt is None else [d, wt], [ents[i]["id"] for i in grp] if len(grp) > 1 or rng.random() < 0.5 else ents[grp[0]]["id"]]
+    um = case.get("um")
+    UM_List = None
+    if um:
+        UM_List = []
+        for i, d in um["list"]:
+            UM_List += [ents[i]["id"], d]
     style = rng.randint(0, 1)
 
     def impl():
         uset, _ = _build(w, style, rng)
         with warnings.catch_warnings():
             warnings.simplefilter("error", RuntimeWarning)
-            return n2p.formrbe3(uset, ents[case["dep"]]["id"], case["ddof"], Ind_List)
+            try:
+                return n2p.formrbe3(uset, ents[case["dep"]]["id"], case["ddof"], Ind_List, UM_List)
+            except ValueError as e:
+                return ("raise", "ValueError: %s" % str(e)[:80])
 
-    line = "rbe3 %s %d %d %s %d %s %d %s" % (
-        _world_line(w), case["dep"], len(ddig), " ".join(map(str, ddig)), len(part),
-        " ".join(map(str, part)), len(ind), " ".join("%d %d %s" % (p, d, f2b(wt)) for p, d, wt in ind))
-    rot = any(d > 3 for _, d, _ in ind)
+    line = "rbe3 %s %d %d %s %d %s %d %s %d %s" % (
+        _world_line(w), case["dep"], len(ddig),
+        " ".join("%d %d" % (c, _dof_key(w, case["dep"], c)) for c in ddig), len(part),
+        " ".join(map(str, part)), len(indlist),
+        " ".join("%d %d %d %s" % (_dof_key(w, i, c), i, c, f2b(wt)) for i, c, wt in indlist), _nuset(w),
+        "0" if not um else "1 %d %s" % (len(_um_mdof(um["list"])),
+                                        " ".join(str(_dof_key(w, i, c)) for i, c in _um_mdof(um["list"]))))
+    rot = any(c > 3 for _, c, _ in indlist)
+    branch = "rbe3:ind-%s" % ("with-rot" if rot else "trans-only") if not um else "rbe3:um-" + um["kind"]
+    if sorted(indlist, key=lambda t: _dof_key(w, t[0], t[1])) != indlist:
+        ctx.count("rbe3:ind-list-not-in-uset-order")
+    if ddig != sorted(ddig):
+        ctx.count("rbe3:dep-digits-not-ascending")
     items.append(("rbe3", {"world": w, "style": style, "op": "rbe3", "case": case}, line, impl,
-                  (len(ddig), len(ind)), None, "rbe3:ind-%s" % ("with-rot" if rot else "trans-only"), None))
+                  None, None, branch, None))
+
+
+def _cmp_rbe3(rep, got, inp):
+    """reply `raise` | `r c bits…` against ndarray | ("raise", msg)"""
+    if rep == "bad-op":
+        raise Infra("C14 driver answered bad-op for an rbe3 request")
+    if rep == "raise":
+        if isinstance(got, tuple):
+            return None
+        return (np.asarray(got).tolist() if not isinstance(got, str) else got, "raise")
+    t = rep.split()
+    r, c = int(t[0]), int(t[1])
+    model = np.array([b2f(x) for x in t[2:]], float).reshape(r, c)
+    if isinstance(got, (tuple, str)):
+        return (got if isinstance(got, str) else got[1], model.tolist())
+    got = np.asarray(got, float)
+    if got.shape != model.shape:
+        return ("shape %s" % (got.shape,), "shape %s" % (model.shape,))
+    sc = max(1.0, float(np.max(np.abs(model))) if model.size else 1.0) * 10
+    ok, err = _close(got, model, sc)
+    return None if ok else (got.tolist(), model.tolist())
+
+
+class _Hang(BaseException):
+    pass
+
+
+_HANGS = [0]
+
+
+def _guard(fn, secs=None):
+    """run fn(); raise _Hang if it is still running after `secs` (a changed loop may not terminate); the limit
+    shrinks after a few hangs so that a tree in which the loop never ends is still checked in bounded time"""
+    import signal
+
+    if secs is None:
+        secs = 5.0 if _HANGS[0] < 3 else 0.25
+
+    def handler(sig, frame):
+        _HANGS[0] += 1
+        raise _Hang()
+
+    old = signal.signal(signal.SIGALRM, handler)
+    signal.setitimer(signal.ITIMER_REAL, secs)
+    try:
+        return fn()
+    finally:
+        signal.setitimer(signal.ITIMER_REAL, 0)
+        signal.signal(signal.SIGALRM, old)
+
+
+def _gen_cards(rng):
+    """-> (scenario, rows): rows = [cid, typ, refcid, A(3), B(3), C(3)] in the order given to build_coords"""
+    scen = rng.choice(["valid"] * 6 + ["dup-equal", "dup-equal3", "dup-unequal", "dup-unequal2", "missing-ref",
+                                        "self-ref", "cycle2", "cycle3", "empty", "single"])
+    if scen == "empty":
+        return scen, []
+    N = 1 if scen == "single" else rng.randint(2, 7)
+    cs = _gen_cs(rng, N)
+    rows = [[s["id"], s["typ"], _cid(cs, s["ref"])] + list(s["A"]) + list(s["B"]) + list(s["C"]) for s in cs]
+    used = {r[0] for r in rows} | {0}
+
+    def fresh():
+        while True:
+            k = rng.randint(1, 1200)
+            if k not in used:
+                used.add(k)
+                return k
+
+    def anycard(cid, ref):
+        return [cid, rng.choice([1, 2, 3]), ref] + [float(rng.randint(-5, 5)) for _ in range(9)]
+
+    if scen in ("dup-equal", "dup-equal3"):
+        r = rng.choice(rows)
+        rows.append(list(r))
+        if scen == "dup-equal3":
+            rows.append(list(r))
+    elif scen in ("dup-unequal", "dup-unequal2"):
+        for r in rng.sample(rows, min(len(rows), 1 if scen == "dup-unequal" else 2)):
+            r2 = list(r)
+            j = rng.choice([1, 2, 5, 11])
+            r2[j] = (r2[j] % 3) + 1 if j == 1 else (fresh() if j == 2 else r2[j] + 1.0)
+            rows.append(r2)
+            if rng.random() < 0.3:
+                rows.append(list(r))
+    elif scen == "missing-ref":
+        r = rng.choice(rows)
+        r[2] = fresh()
+    elif scen == "self-ref":
+        k = fresh()
+        rows.append(anycard(k, k))
+    elif scen == "cycle2":
+        k1, k2 = fresh(), fresh()
+        rows += [anycard(k1, k2), anycard(k2, k1)]
+        if rng.random() < 0.5:
+            rows.append(anycard(fresh(), k1))  # a tail hanging off the cycle
+    elif scen == "cycle3":
+        k1, k2, k3 = fresh(), fresh(), fresh()
+        rows += [anycard(k1, k2), anycard(k2, k3), anycard(k3, k1)]
+    rng.shuffle(rows)
+    return scen, [[float(v) for v in r] for r in rows]
+
+
+def _cards_line(op, rows):
+    return "%s %d %s" % (op, len(rows), " ".join(
+        "%d %d %d %s" % (int(r[0]), int(r[2]), int(r[1]), _fl(r[3:])) for r in rows))
+
+
+def _parse_dict(t):
+    """tokens after `D`: n (cid typ o3 T9)×n -> [(cid, typ, 12 floats)]"""
+    n = int(t[0])
+    out = []
+    for k in range(n):
+        q = t[1 + 14 * k : 1 + 14 * (k + 1)]
+        out.append((int(q[0]), int(q[1]), np.array([b2f(x) for x in q[2:]], float)))
+    return out
+
+
+def _dict_diff(cr, mdict, rows):
+    """compare a coordref dictionary with the model's (numbers to TOL); None if equal"""
+    keys = [int(k) for k in cr]
+    mk = [c for c, _, _ in mdict]
+    if sorted(set(keys) | {0}) != sorted(set(mk)):
+        return ("keys %s" % keys, "keys %s" % mk)
+    sc = 1.0 + max([abs(v) for r in rows for v in r[3:]] + [1.0]) * (1 + len(rows))
+    for cid, typ, v in mdict:
+        if cid == 0 and 0 not in keys:
+            continue
+        ci = np.asarray(cr[cid], float)
+        if ci.shape != (5, 3) or list(ci[0]) != [cid, typ, 0]:
+            return ("coordinfo of %d: header %s" % (cid, ci[0].tolist()), [cid, typ, 0])
+        ok, err = _close(ci[1:].ravel(), v, sc)
+        if not ok:
+            return ("coordinfo of %d: %s" % (cid, ci[1:].ravel().tolist()), v.tolist())
+    return None
+
+
+def _plan_bc(ctx, rng, items):
+    import re
+
+    from pyyeti.nastran import n2p
+
+    scen, rows = _gen_cards(rng)
+
+    def impl():
+        arr = np.array(rows, float) if rows else np.zeros((0, 12))
+        try:
+            return _guard(lambda: n2p.build_coords(arr))
+        except _Hang:
+            return ("err", "does-not-terminate", [])
+        except RuntimeError as e:
+            msg = str(e)
+            if "duplicate but unequal" in msg:
+                return ("err", "dup", [int(float(msg.split("cid =")[1]))])
+            if "Could not resolve" in msg:
+                return ("err", "unresolved", [int(float(x)) for x in re.findall(r"-?\d+\.?\d*", msg.split("cards:")[1])])
+            return ("err", "other", msg[:100])
+
+    def cmp(rep, got, inp):
+        t = rep.split()
+        if t[0] == "bad-op":
+            raise Infra("C14 driver answered bad-op for a bc request")
+        if t[0] == "err":
+            model = ("err", t[1], [int(x) for x in (t[3:] if t[1] == "unresolved" else t[2:3])])
+            ctx.count("bc:err-" + t[1])
+            if isinstance(got, str):
+                return (got, model)
+            if not isinstance(got, tuple) or (got[0], got[1], list(got[2])) != model:
+                return (got if isinstance(got, tuple) else "dictionary with keys %s" % [int(k) for k in got], model)
+            return None
+        L = int(t[2])
+        lev = {int(t[3 + 2 * k]): int(t[4 + 2 * k]) for k in range(L)}
+        d = t[3 + 2 * L :]
+        if d[0] != "D":
+            raise Infra("C14 driver: malformed bc reply")
+        mdict = _parse_dict(d[1:])
+        if lev and max(lev.values()) > 1:
+            ctx.count("bc:levels>=2")
+        if lev and max(lev.values()) >= 4:
+            ctx.count("bc:levels>=4")
+        if isinstance(got, (tuple, str)):
+            return (got, rep[:80])
+        if not rows:
+            return None if len(got) == 0 and not mdict else ("keys %s" % list(got), "empty")
+        keys = [int(k) for k in got]
+        if keys[:1] != [0]:
+            return ("first key %s" % keys[:1], "0 (basic) first")
+        # reference order: the dictionary is filled level by level
+        lv = [lev.get(k) for k in keys[1:]]
+        if None in lv or lv != sorted(lv):
+            return ("key order %s" % keys, "levels %s" % lev)
+        return _dict_diff(got, mdict, rows)
+
+    ctx.count("bc:scen-" + scen)
+    items.append(("bc", {"op": "bc", "scenario": scen, "rows": rows}, _cards_line("bc", rows), impl, cmp, None, None, None))
+
+
+def _plan_mk(ctx, rng, items):
+    from pyyeti.nastran import n2p
+
+    N = rng.randint(1, 6)
+    cs = _gen_cs(rng, N)
+    rows = [[s["id"], s["typ"], _cid(cs, s["ref"])] + list(s["A"]) + list(s["B"]) + list(s["C"]) for s in cs]
+    mode = rng.choice(["in-order", "shuffled", "redefine", "unknown-ref"])
+    if mode == "shuffled":
+        rng.shuffle(rows)
+    elif mode == "redefine":
+        r = list(rng.choice(rows))
+        r[1] = r[1] % 3 + 1
+        r[5] += 2.0
+        rows.insert(rng.randint(0, len(rows)), r)  # the first definition of an id wins
+    elif mode == "unknown-ref":
+        rng.choice(rows)[2] = 4000 + rng.randint(0, 9)
+        rng.shuffle(rows)
+    rows = [[float(v) for v in r] for r in rows]
+
+    def impl():
+        cr = {}
+        st = "S"
+        for r in rows:
+            card = np.array(r).reshape(4, 3)
+            known = any(int(k) == int(r[0]) for k in cr)
+            before = len([k for k in cr if int(k) != 0])
+            try:
+                ci = n2p.mkusetcoordinfo(card, None, cr)
+            except ValueError:
+                st += "e"
+                continue
+            if not np.array_equal(ci, cr[int(r[0])]):
+                return "returned value is not the stored one for id %d" % int(r[0])
+            after = len([k for k in cr if int(k) != 0])
+            st += "k" if known else "n"
+            if (after != before) == known:
+                return "dictionary size %d -> %d for id %d (known=%s)" % (before, after, int(r[0]), known)
+        return (st, cr)
+
+    def cmp(rep, got, inp):
+        t = rep.split()
+        if t[0] == "bad-op" or len(t) < 2 or t[1] != "D":
+            raise Infra("C14 driver: malformed mk reply %r" % rep[:60])
+        for ch in t[0][1:]:
+            ctx.count("mk:status-" + ch)
+        if isinstance(got, str):
+            return (got, t[0])
+        st, cr = got
+        if st != t[0]:
+            return (st, t[0])
+        return _dict_diff({int(k): v for k, v in cr.items()}, _parse_dict(t[2:]), rows)
+
+    ctx.count("mk:mode-" + mode)
+    items.append(("mk", {"op": "mk", "mode": mode, "rows": rows}, _cards_line("mk", rows), impl, cmp, None, None, None))
+
+
+def _boundary_world(rng):
+    """a spherical (and a cylindrical) system in a rotated frame with grids entered at azimuths exactly on the
+    branch boundaries of getcoordinates: after the rotation to basic and back the small component is round-off"""
+    cs = _gen_cs(rng, rng.randint(1, 3))
+    cs[-1]["typ"] = 3
+    if len(cs) > 1:
+        cs[0]["typ"] = rng.choice([2, 3])
+        # the points of the later cards were drawn for the old type of their reference: redraw
+        cs = cs[:1] + _regen_after(rng, cs)
+    infos = _ref_resolve(cs)
+    entries = []
+    gids = rng.sample(range(1, 5000), 8)
+    az = [0.0, 90.0, -90.0, 180.0, 270.0, 45.0, 135.0, -135.0, -45.0, 360.0]
+    rng.shuffle(az)
+    for j in range(6):
+        k = len(cs) if j < 4 else rng.randint(1, len(cs))
+        typ = cs[k - 1]["typ"]
+        r = _rnd(rng, 1, 20)
+        if typ == 3:
+            xyz = [r, rng.choice([90.0, 45.0, 30.0, 150.0, rng.uniform(20, 160)]), az[j]]
+        elif typ == 2:
+            xyz = [r, az[j], _rnd(rng, -20, 20)]
+        else:
+            xyz = [_rnd(rng, -20, 20) for _ in range(3)]
+        entries.append({"kind": "grid", "id": gids[j], "nasset": "b", "cin": k, "xyz": xyz, "cout": k})
+    return {"cs": cs, "entries": entries}
+
+
+def _regen_after(rng, cs):
+    """redraw the A, B, C points of cards 2.. so that they fit the (changed) type of their reference"""
+    out = []
+    for i in range(1, len(cs)):
+        s = dict(cs[i])
+        reftyp = 1 if s["ref"] == 0 else (cs[:1] + out)[s["ref"] - 1]["typ"]
+        while True:
+            A, B, C = (_rand_point(rng, reftyp) for _ in range(3))
+            a, b, c = (_to_rect(reftyp, P) for P in (A, B, C))
+            ab, ac = b - a, c - a
+            nab, nac = np.linalg.norm(ab), np.linalg.norm(ac)
+            if nab > 0.5 and nac > 0.5 and np.linalg.norm(np.cross(ab, ac)) / (nab * nac) > 0.2:
+                break
+        s.update(A=A, B=B, C=C)
+        out.append(s)
+    return out
 
 
 def _corpus(ctx):
@@ -724,17 +1191,26 @@ def correspondence(ctx):
     rng = ctx.rng
     items = []
     worlds = [_floatify(w) for w in _corpus(ctx)] + [_floatify(w) for w in _fixed_worlds()]
-    nw = ctx.pick(220, 2500)
+    nw = ctx.pick(200, 2400)
     for i in range(nw):
         if i % 5 == 4:
             worlds.append(_gen_world(rng, N=5))  # deep chains
         else:
             worlds.append(_gen_world(rng))
+    for i in range(ctx.pick(30, 300)):
+        worlds.append(_floatify(_boundary_world(rng)))
     for w in worlds:
         _plan_world(ctx, rng, w, items)
-    for i in range(ctx.pick(120, 1500)):
+    for i in range(ctx.pick(90, 1000)):
         w = _gen_world(rng, N=rng.randint(0, 4), G=rng.randint(4, 7), plain=True)
         _plan_rbe3(ctx, rng, w, items)
+    for i in range(ctx.pick(150, 1500)):
+        w = _gen_world(rng, N=rng.randint(0, 4), G=rng.randint(4, 7), plain=True)
+        _plan_rbe3(ctx, rng, w, items, kind=UM_KINDS[i % len(UM_KINDS)])
+    for i in range(ctx.pick(250, 2500)):
+        _plan_bc(ctx, rng, items)
+    for i in range(ctx.pick(120, 1200)):
+        _plan_mk(ctx, rng, items)
 
     drv = ctx.driver("C14")
     reps = drv.ask([it[2] for it in items])
@@ -742,8 +1218,25 @@ def correspondence(ctx):
         warnings.simplefilter("ignore", FutureWarning)
         for it, rep in zip(items, reps):
             stream, inp, line, impl, shape, ang, branch, skipf = it
-            w = inp["world"]
             key = (stream, line)
+            if callable(shape) or shape is None:
+                # custom comparison (rbe3: shape / exception; bc, mk: exact bookkeeping + numbers)
+                try:
+                    got = impl()
+                except Exception as e:
+                    got = "exception %s: %s" % (type(e).__name__, e)
+                w = inp.get("world")
+                ctx.case(key, nontrivial=True if w is None else (_nontrivial(w) or stream == "rbe3"), branch=branch)
+                ctx.count("stream:" + stream)
+                bad = (_cmp_rbe3 if shape is None else shape)(rep, got, inp)
+                if bad is not None:
+                    ctx.disagree(stream, inp, bad[0], bad[1])
+                elif stream == "rbe3" and ctx.hist.get("sampled:" + stream) is None and not isinstance(got, tuple):
+                    ctx.count("sampled:" + stream)
+                    ctx.sample({"stream": stream, "request_head": line[:80],
+                                "impl_head": np.asarray(got).ravel()[:6].tolist()})
+                continue
+            w = inp["world"]
             model = _floats(rep)
             if model is None or model.size != shape[0] * shape[1]:
                 raise Infra("C14 driver answered %r for a %s request" % (rep[:60], stream))
@@ -768,23 +1261,27 @@ def correspondence(ctx):
                     got = got[~sk]
                     model = model[~sk]
             sc = _scale(w)
-            if stream == "rbe3":
-                sc = max(1.0, float(np.max(np.abs(model))) if model.size else 1.0) * 10
             ok, err = _close(got, model, sc, ang)
             if not ok:
                 ctx.disagree(stream, inp, got.tolist(), model.tolist())
-            elif len(ctx.samples) < 6 and stream in ("get", "rb", "rbe3", "rep", "cs", "mv") and ctx.hist.get("sampled:" + stream) is None:
+            elif len(ctx.samples) < 6 and stream in ("get", "rb", "rep", "cs", "mv") and ctx.hist.get("sampled:" + stream) is None:
                 ctx.count("sampled:" + stream)
                 ctx.sample({"stream": stream, "request_head": line[:80], "impl_head": got.ravel()[:6].tolist(),
                             "max_abs_diff": err})
     for k in [k for k in ctx.hist if k.startswith("sampled:")]:
         del ctx.hist[k]
     ctx.require_branches(
-        ["stream:" + s for s in ("cs", "loc", "get", "rb", "rbg", "mv", "rbc", "rbe3", "rep")]
+        ["stream:" + s for s in ("cs", "loc", "get", "rb", "rbg", "mv", "rbc", "rbe3", "rep", "bc", "mk")]
         + ["get:typ1", "get:typ2", "get:typ3", "get:sph-theta-via-sin", "get:sph-theta-via-cos",
+           "get:sph-azimuth-180", "get:sph-azimuth-minus-90", "get:sph-azimuth-0-or-90", "get:sph-azimuth-diagonal",
            "rb:cout-typ1", "rb:cout-typ2", "rb:cout-typ3", "rb:qset-grid", "rb:with-spoint", "rb:ref-g", "rb:ref-x",
-           "rbe3:ind-with-rot", "rbe3:ind-trans-only", "rep:form4x3", "rep:id+3x3", "cs:depth5",
-           "loc:cin-typ1", "loc:cin-typ2", "loc:cin-typ3"]
+           "rbe3:ind-with-rot", "rbe3:ind-trans-only", "rbe3:ind-list-not-in-uset-order",
+           "rbe3:dep-digits-not-ascending"]
+        + ["rbe3:um-" + k for k in UM_KINDS]
+        + ["rep:form4x3", "rep:id+3x3", "cs:depth5", "loc:cin-typ1", "loc:cin-typ2", "loc:cin-typ3",
+           "bc:err-dup", "bc:err-unresolved", "bc:levels>=2", "bc:levels>=4",
+           "bc:scen-valid", "bc:scen-dup-equal", "bc:scen-cycle2", "bc:scen-self-ref", "bc:scen-missing-ref",
+           "bc:scen-empty", "mk:status-n", "mk:status-k", "mk:status-e"]
     )
 
 
@@ -1038,30 +1535,41 @@ def _oracle_world(ctx, w, style=0, rbe3_case=None, rep=None, seed=0):
         _oracle_rbe3(ctx, w, uset, X, rbe3_case, fail, rng)
 
 
+def _um_family(ref, mdof, default):
+    """family of a UM_List failure from the input's own characteristics: formrbe3 tests index arrays for truth
+    (`dpv_m.any()`, `np.any(ipv_m)`), which is False for the single index 0"""
+    dm, dn, im, inn = _um_split(ref, mdof)
+    if dm == [0]:
+        return "rbe3-um-mset-holds-only-the-first-dependent-dof"
+    if im == [0] and dm:
+        return "rbe3-um-mset-holds-only-the-first-independent-dof"
+    return default
+
+
 def _oracle_rbe3(ctx, w, uset, X, case, fail, rng):
+    """formrbe3 (and its UM_List variants) reproduces rigid-body motion: stated on the API with the oracle's own
+    geometry; rigid-body modes are taken relative to an arbitrary point, not the dependent grid."""
     from pyyeti.nastran import n2p
 
     ents = w["entries"]
     gents = _grid_entries(w)
     pos = {e["id"]: i for i, e in enumerate(gents)}
     dep = ents[case["dep"]]
-    pdep = X[pos[dep["id"]], 0]
-    # analytic rigid-body modes of every grid relative to an arbitrary point
-    ref = np.array([_rnd(rng, -20, 20) for _ in range(3)])
+    ref0 = _rbe3_ref(w, case)
+    point = np.array([_rnd(rng, -20, 20) for _ in range(3)])
     blocks = {}
-    for e, x in zip(gents, X):
+    for k, e in enumerate(ents):
+        if e["kind"] != "grid":
+            continue
+        x = X[pos[e["id"]]]
         R = _local_frame(int(x[1, 1]), x[2], x[3:], x[0])
-        blocks[e["id"]] = np.kron(np.eye(2), R.T) @ _rigid6(x[0] - ref)
-    per = {}
-    for d, wt, grp in case["groups"]:
-        for i in grp:
-            per[ents[i]["id"]] = _digits(d)
+        blocks[k] = np.kron(np.eye(2), R.T) @ _rigid6(x[0] - point)
     Ind_List = []
     for d, wt, grp in case["groups"]:
         Ind_List += [d if wt is None else [d, wt], [ents[i]["id"] for i in grp]]
-    idof = [(e["id"], d) for e in gents if e["id"] in per for d in per[e["id"]]]
-    ddof = [(dep["id"], d) for d in _digits(case["ddof"])]
-    rot = any(d > 3 for _, d in idof)
+    idof = ref0["idof"]
+    ddof = ref0["ddof"]
+    rot = any(c > 3 for _, c in idof)
     ex_in = {"check": "rbe3", "case": case}
     tag = "with-rot" if rot else "trans-only"
     try:
@@ -1071,66 +1579,152 @@ def _oracle_rbe3(ctx, w, uset, X, case, fail, rng):
     except Exception as ex:
         fail("rbe3-raises-%s" % type(ex).__name__, "formrbe3 raised: %s" % ex, ex_in, repr(ex), "matrix")
         return
-    rbi = np.array([blocks[g][d - 1] for g, d in idof])
-    rbd = np.array([blocks[g][d - 1] for g, d in ddof])
+    rbi = np.array([blocks[i][c - 1] for i, c in idof])
+    rbd = np.array([blocks[i][c - 1] for i, c in ddof])
     sc = max(1.0, np.max(np.abs(rbd)), np.max(np.abs(r)) * np.max(np.abs(rbi)))
     if r.shape != (len(ddof), len(idof)) or np.max(np.abs(r @ rbi - rbd)) > 1e-7 * sc:
         fail("rbe3-rigid-motion-%s-dep-%s" % (tag, _tname(int(X[pos[dep["id"]], 1, 1]))),
              "rbe3 @ (rigid motion of the independent DOF) != rigid motion of the dependent DOF",
              ex_in, (r @ rbi).tolist() if r.shape == (len(ddof), len(idof)) else list(r.shape), rbd.tolist())
         return
-    # UM_List: move some DOF of independent grids into the m-set
     um = case.get("um")
-    if um:
-        UM_List = []
-        mdof = []
-        for i, d in um:
-            UM_List += [ents[i]["id"], d]
-        allorder = [(e["id"], d) for e in gents for d in range(1, 7)]
-        mset = set()
-        for i, d in um:
-            for dd in _digits(d):
-                mset.add((ents[i]["id"], dd))
-        mdof = [t for t in allorder if t in mset]
-        rest = [t for t in allorder if (t in set(ddof) or t in set(idof)) and t not in mset]
-        try:
-            with warnings.catch_warnings():
-                warnings.simplefilter("ignore")
-                ru = n2p.formrbe3(uset, dep["id"], case["ddof"], Ind_List, UM_List)
-        except Exception as ex:
-            fail("rbe3-um-raises-%s" % type(ex).__name__, "formrbe3 with UM_List raised: %s" % ex,
-                 dict(ex_in, um=um), repr(ex), "matrix")
-            return
-        rm = np.array([blocks[g][d - 1] for g, d in mdof])
-        rr = np.array([blocks[g][d - 1] for g, d in rest])
-        scu = max(1.0, np.max(np.abs(rm)), np.max(np.abs(ru)) * np.max(np.abs(rr)))
-        if ru.shape != (len(mdof), len(rest)) or np.max(np.abs(ru @ rr - rm)) > 1e-6 * scu:
-            fail("rbe3-um-rigid-motion-%s" % tag, "rbe3 with UM_List does not reproduce rigid motion at the m-set",
-                 dict(ex_in, um=um), list(ru.shape), [len(mdof), len(rest)])
-
-
-def _add_um(rng, w, case):
-    """m-set entirely inside the independent set: nd DOF taken from translations of independent grids"""
-    nd = len(_digits(case["ddof"]))
-    cand = []
-    for d, wt, grp in case["groups"]:
-        for i in grp:
-            for dd in _digits(d):
-                if dd <= 3:
-                    cand.append((i, dd))
-    if len(cand) < nd + 3:
+    if not um:
         return
-    rng.shuffle(cand)
-    pick = sorted(cand[:nd])
-    per = {}
-    for i, dd in pick:
-        per.setdefault(i, []).append(dd)
-    case["um"] = [(i, int("".join(map(str, sorted(v))))) for i, v in sorted(per.items())]
+    kind = um["kind"]
+    UM_List = []
+    for i, d in um["list"]:
+        UM_List += [ents[i]["id"], d]
+    key = lambda t: _dof_key(w, t[0], t[1])
+    mdof = sorted(set(_um_mdof(um["list"])), key=key)
+    mset = set(mdof)
+    rest = sorted([t for t in set(ddof) | set(idof) if t not in mset], key=key)
+    um_in = dict(ex_in, UM_List=UM_List)
+    try:
+        with warnings.catch_warnings():
+            warnings.simplefilter("ignore")
+            ru = n2p.formrbe3(uset, dep["id"], case["ddof"], Ind_List, UM_List)
+    except Exception as ex:
+        if kind == "size":
+            if not isinstance(ex, ValueError):
+                fail("rbe3-um-wrong-size-raises-%s" % type(ex).__name__, "expected ValueError: %s" % ex, um_in,
+                     repr(ex), "ValueError")
+            return
+        if ref0["R0"] is not None and _um_block_cond(ref0, mdof) <= 1e4:
+            fail(_um_family(ref0, mdof, "rbe3-um-%s-raises-%s" % (kind, type(ex).__name__)),
+                 "formrbe3 with a valid UM_List (non-singular partition, cond <= 1e4) raised %s: %s"
+                 % (type(ex).__name__, str(ex)[:120]), um_in, repr(ex),
+                 "a %d x %d matrix" % (len(mdof), len(rest)))
+        else:
+            ctx.skip("oracle rbe3: UM_List choice singular/ill-conditioned")
+        return
+    if kind == "size":
+        fail("rbe3-um-wrong-size-accepted", "UM_List with %d DOF accepted for %d dependent DOF" % (len(mdof), len(ddof)),
+             um_in, list(ru.shape), "ValueError")
+        return
+    if ref0["R0"] is None or not _um_block_cond(ref0, mdof) <= 1e4:
+        ctx.skip("oracle rbe3: UM_List choice singular/ill-conditioned")
+        return
+    rm = np.array([blocks[i][c - 1] for i, c in mdof])
+    rr = np.array([blocks[i][c - 1] for i, c in rest])
+    if ru.shape != (len(mdof), len(rest)):
+        fail(_um_family(ref0, mdof, "rbe3-um-shape-%s" % kind),
+             "formrbe3 with UM_List returned a %s matrix for %d m-set DOF and %d remaining DOF"
+             % (ru.shape, len(mdof), len(rest)), um_in, list(ru.shape), [len(mdof), len(rest)])
+        return
+    scu = max(1.0, np.max(np.abs(rm)), np.max(np.abs(ru)) * np.max(np.abs(rr)))
+    if np.max(np.abs(ru @ rr - rm)) > 1e-6 * scu:
+        fail(_um_family(ref0, mdof, "rbe3-um-rigid-motion-%s-%s" % (kind, tag)),
+             "rbe3 with UM_List does not reproduce rigid motion at the m-set", um_in, (ru @ rr).tolist(), rm.tolist())
+
+
+def _docstring_world():
+    """the uset of formrbe3's docstring: four grids on the unit circle, the dependent one at the origin"""
+    locs = [[1, 0, 0], [0, 1, 0], [-1, 0, 0], [0, -1, 0], [0, 0, 0]]
+    return _floatify({"cs": [], "entries": [
+        {"kind": "grid", "id": 100 * (k + 1), "nasset": "b", "cin": 0, "xyz": locs[k], "cout": 0} for k in range(5)]})
+
+
+def _um_probes():
+    """the two inputs on which formrbe3's truth tests of index arrays go wrong (docstring geometry)"""
+    case = {"dep": 4, "ddof": 123456, "groups": [(123, None, [0, 1, 2, 3])]}
+    a = dict(case, um={"kind": "first-ind", "list": [(0, 1), (4, 23456)]})
+    b = dict(case, um={"kind": "first-dep", "list": [(4, 1), (0, 23), (1, 13), (2, 3)]})
+    return [a, b]
+
+
+def _oracle_chain(ctx, rng, n):
+    """build_coords on the API: the order of the cards is irrelevant, equal duplicates are ignored, unequal
+    duplicates / unknown references / reference cycles are refused."""
+    from pyyeti.nastran import n2p
+
+    for _ in range(n):
+        scen, rows = _gen_cards(rng)
+        ctx.count("oracle:chain")
+        inp = {"check": "chain", "scenario": scen, "rows": rows}
+        arr = np.array(rows, float) if rows else np.zeros((0, 12))
+        bad = scen in ("dup-unequal", "dup-unequal2", "missing-ref", "self-ref", "cycle2", "cycle3")
+        try:
+            cr = _guard(lambda: n2p.build_coords(arr))
+        except _Hang:
+            ctx.fail("build-coords-does-not-terminate-%s" % scen, "build_coords was still running after the time limit", inp,
+                     "no result", "a dictionary or RuntimeError")
+            continue
+        except RuntimeError as ex:
+            if not bad:
+                ctx.fail("build-coords-refuses-%s" % scen, "build_coords raised on a valid set of cards: %s" % ex, inp,
+                         repr(ex), "a dictionary")
+            continue
+        except Exception as ex:
+            ctx.fail("build-coords-raises-%s-%s" % (type(ex).__name__, scen), "build_coords raised: %s" % ex, inp,
+                     repr(ex), "a dictionary or RuntimeError")
+            continue
+        if bad:
+            ctx.fail("build-coords-accepts-%s" % scen, "build_coords returned a dictionary for cards it must refuse",
+                     inp, sorted(int(k) for k in cr), "RuntimeError")
+            continue
+        ids = sorted({int(r[0]) for r in rows})
+        if sorted(int(k) for k in cr if int(k) != 0) != ids:
+            ctx.fail("build-coords-keys-%s" % scen, "dictionary keys differ from the card ids", inp,
+                     sorted(int(k) for k in cr), ids)
+            continue
+        # each system is the A-B-C construction in its reference system (own numpy), whatever the order
+        byid = {int(r[0]): r for r in rows}
+        memo = {0: (1, np.zeros(3), np.eye(3))}
+
+        def info(cid):
+            if cid not in memo:
+                r = byid[cid]
+                rt, ro, rT = info(int(r[2]))
+                a, b, c = (_to_rect(rt, r[3 + 3 * k : 6 + 3 * k]) for k in range(3))
+                z = (b - a) / np.linalg.norm(b - a)
+                y = np.cross(z, c - a)
+                y /= np.linalg.norm(y)
+                memo[cid] = (int(r[1]), ro + rT @ a, rT @ np.column_stack([np.cross(y, z), y, z]))
+            return memo[cid]
+
+        sc = 1.0 + max([abs(v) for r in rows for v in r[3:]] + [1.0]) * (1 + len(rows))
+        for cid in ids:
+            t, o, T = info(cid)
+            ci = np.asarray(cr[cid], float)
+            if list(ci[0]) != [cid, t, 0] or np.max(np.abs(ci[1] - o)) > 1e-8 * sc or np.max(np.abs(ci[2:] - T)) > 1e-9:
+                ctx.fail("build-coords-system-%s" % scen, "resolved system differs from the A-B-C construction in its "
+                         "reference system", dict(inp, cid=cid), ci.tolist(), [[cid, t, 0], o.tolist()] + T.tolist())
+                break
+        else:
+            rows2 = rows[:]
+            rng.shuffle(rows2)
+            cr2 = _guard(lambda: n2p.build_coords(np.array(rows2, float) if rows2 else np.zeros((0, 12))))
+            if sorted(map(int, cr2)) != sorted(map(int, cr)) or any(
+                    not np.array_equal(cr[k], cr2[k]) for k in cr):
+                ctx.fail("build-coords-order-dependent", "the dictionary depends on the order of the cards", inp,
+                         "differs after shuffling", "identical")
 
 
 def _sub(ctx):
     sub = type(ctx).__new__(type(ctx))
     sub.failures = []
+    sub.skipped = {}
+    sub.hist = {}
     return sub
 
 
@@ -1143,6 +1737,8 @@ def search(ctx, hints):
         seen = 0
         for h in hints[:40]:
             inp = h["input"]
+            if "world" not in inp:
+                continue
             _oracle_world(ctx, inp["world"], inp.get("style", 0), inp.get("case"),
                           {k: inp[k] for k in ("A", "B", "C", "newid", "form4")} if inp.get("op") == "rep" else None,
                           seed=seen)
@@ -1151,51 +1747,40 @@ def search(ctx, hints):
             if len(ctx.failures) - n0 > 12:
                 return
         worlds = [_floatify(w) for w in _corpus(ctx)] + [_floatify(w) for w in _fixed_worlds()]
-        for i in range(ctx.pick(90, 900)):
+        for i in range(ctx.pick(80, 800)):
             worlds.append(_gen_world(rng, N=5) if i % 4 == 3 else _gen_world(rng))
+        for i in range(ctx.pick(12, 120)):
+            worlds.append(_floatify(_boundary_world(rng)))
         for i, w in enumerate(worlds):
             _oracle_world(ctx, w, style=i % 2, seed=ctx.seed * 100003 + i)
             ctx.count("oracle:worlds")
             if len(ctx.failures) - n0 > 12:
                 return
-        nr = ctx.pick(60, 600)
+        _oracle_chain(ctx, rng, ctx.pick(80, 800))
+        if len(ctx.failures) - n0 > 12:
+            return
+        for case in _um_probes():
+            _oracle_world_rbe3_only(ctx, _docstring_world(), case, 1)
+            ctx.count("oracle:rbe3-um-probe")
+        kinds = (None, "indep", "dep", "mixed", "size")
+        nr = ctx.pick(70, 700)
         for i in range(nr):
             w = _gen_world(rng, N=rng.randint(0, 4), G=rng.randint(4, 7), plain=True)
             case = _rbe3_case(rng, w)
+            # the two index-truth-test inputs are probed above; a few random ones of each for variety
+            kind = ("first-ind", "first-dep")[i % 2] if i >= nr - 6 else kinds[i % len(kinds)]
+            ref = _rbe3_ref(w, case)
             # skip ill-conditioned independent sets (same rule as the correspondence)
-            if not _rbe3_wellposed(w, case):
-                ctx.skip("oracle rbe3: cond(rb'Wrb) > 1e6")
+            if not ref["cond"] <= (1e6 if kind is None else 1e4):
+                ctx.skip("oracle rbe3: cond(rb'Wrb) too large")
                 continue
-            if i % 2:
-                _add_um(rng, w, case)
-            sub = _sub(ctx)
-            _oracle_world_rbe3_only(sub, w, case, ctx.seed * 7919 + i)
-            if sub.failures and case.get("um") and sub.failures[0]["family"].startswith("rbe3-um"):
-                # an m-set chosen at random may be (nearly) singular: that is the caller's responsibility
-                ctx.skip("oracle rbe3: UM_List choice singular/ill-conditioned")
-            else:
-                ctx.failures.extend(sub.failures)
-            ctx.count("oracle:rbe3-um" if case.get("um") else "oracle:rbe3")
+            if kind is not None and not _add_um(rng, w, case, ref, kind):
+                ctx.skip("oracle rbe3: no well-conditioned UM_List of kind %s" % kind)
+                continue
+            _oracle_world_rbe3_only(ctx, w, case, ctx.seed * 7919 + i)
+            ctx.count("oracle:rbe3-um-" + kind if kind else "oracle:rbe3")
             if len(ctx.failures) - n0 > 12:
                 return
-
-
-def _rbe3_wellposed(w, case):
-    ents = w["entries"]
-    infos = _ref_resolve(w["cs"])
-    part, ind = _rbe3_canon(w, case)
-    locs = [infos[e["cin"]][1] + infos[e["cin"]][2] @ _to_rect(infos[e["cin"]][0], e["xyz"]) for e in ents]
-    pdep = locs[case["dep"]]
-    Lc = sum(np.linalg.norm(locs[i] - pdep) for i in part) / (len(part) - 1)
-    rows, wts = [], []
-    for pos, d, wt in ind:
-        i = part[pos]
-        ct, co, cT = infos[ents[i]["cout"]]
-        R = _local_frame(ct, co, cT, locs[i])
-        rows.append((np.kron(np.eye(2), R.T) @ _rigid6(locs[i] - pdep))[d - 1])
-        wts.append(wt * Lc * Lc if d > 3 else wt)
-    rb = np.array(rows)
-    return np.linalg.cond((rb.T * np.array(wts)) @ rb) <= 1e6
 
 
 def _oracle_world_rbe3_only(ctx, w, case, seed):
@@ -1218,11 +1803,31 @@ def _oracle_world_rbe3_only(ctx, w, case, seed):
     _oracle_rbe3(ctx, w, uset, X, case, fail, rng)
 
 
+def _replay_chain(sub, inp, f):
+    """re-run build_coords on the recorded cards"""
+    import random
+
+    saved = _gen_cards
+
+    def fixed(_rng):
+        return inp["scenario"], [list(r) for r in inp["rows"]]
+
+    globals()["_gen_cards"] = fixed
+    try:
+        _oracle_chain(sub, random.Random(0), 1)
+    finally:
+        globals()["_gen_cards"] = saved
+    same = [g for g in sub.failures if g["family"] == f["family"]]
+    return same[0] if same else (sub.failures[0] if sub.failures else None)
+
+
 def replay(ctx, data):
     f = data["failure"]
     inp = f["input"]
     sub = _sub(ctx)
     sub.fail = lambda *a: type(ctx).fail(sub, *a)
+    if inp.get("check") == "chain":
+        return _replay_chain(sub, inp, f)
     w = _floatify(inp["world"])
     with warnings.catch_warnings():
         warnings.simplefilter("ignore", FutureWarning)
